@@ -411,7 +411,7 @@ def gen(rng, tier):
     for c in _gen_core(rng, tier):
         yield c
     from driver import cligen
-    for c in cligen.cases(rng, ['sort', 'addid', 'trim', 'rename', 'replace', 'concat', 'subset'], 40 if tier == "quick" else 400):
+    for c in cligen.cases(rng, ['sort', 'sort-more', 'addid', 'trim', 'rename', 'replace', 'concat', 'subset'], 40 if tier == "quick" else 400):
         yield c
     # Go's regexp against the hand-written model of the subset that the `-e` expectations use
     for c in gen_regexsub(rng, 400 if tier == "quick" else 6000):
